@@ -11,7 +11,7 @@ import (
 )
 
 func init() {
-	register(&Rule{ID: "C19.f", Doc: "token literals are spelled by the source: a Literal is made of input slices, the characters read, and constant text; the lexer applies no text transformation other than the reviewed ones", Floor: 10, Run: c19f})
+	register(&Rule{ID: "C19.f", Doc: "token literals are spelled by the source: a Literal is made of input slices, the characters read, and constant text; the lexer applies no text transformation other than the reviewed ones", Floor: 13, Run: c19f})
 }
 
 // lexerTransforms: the foreign string-returning calls the lexer may make, by function.
